@@ -635,9 +635,11 @@ func (env *rEnv) eval(n *rNode) Value {
 			// yields no fact (true), never `false`.
 			base := env.post.clone()
 			env.post.addInst(sort, func(s *State, t Term) Term {
-				snap := base.clone()
-				nd, np := len(snap.decls), len(snap.pc)
-				sub := &rEnv{e: eng, pre: pre, post: snap, vars: copyVars(vars), typs: typs, specs: specs, head: head, entry: entry, iterKey: iterKey, pol: -1, headVars: headVars, entryVars: entryVars}
+				// a shallow view of the snapshot (heap shared: evaluation only adds deterministic lazy cells) whose
+				// declarations and axiom instances are sent to the state the fact is instantiated for
+				snap := *base
+				snap.sink = s
+				sub := &rEnv{e: eng, pre: pre, post: &snap, vars: copyVars(vars), typs: typs, specs: specs, head: head, entry: entry, iterKey: iterKey, pol: -1, headVars: headVars, entryVars: entryVars}
 				sub.vars[name] = sym(t)
 				r := sub.term(body)
 				if sub.err != nil {
@@ -645,15 +647,6 @@ func (env *rEnv) eval(n *rNode) Value {
 						fmt.Fprintf(os.Stderr, "DEBUG assumed universal does not evaluate: %v\n", sub.err)
 					}
 					return TTrue
-				}
-				for _, d := range snap.decls[nd:] {
-					if f := strings.Fields(d); len(f) >= 2 && !s.declSet[f[1]] {
-						s.declSet[f[1]] = true
-						s.decls = append(s.decls, d)
-					}
-				}
-				for _, f := range snap.pc[np:] {
-					s.fact(f)
 				}
 				return r
 			})
